@@ -62,6 +62,7 @@ func main() {
 	if *deadline > 0 {
 		dl = time.Unix(*deadline, 0)
 	}
+	checks.Deadline = dl
 	runOne := func(i int) vp.InstResult {
 		in := insts[i]
 		if *bound >= 0 {
